@@ -30,7 +30,7 @@ RULES = {
 PROBES = ["skp_words_sent", "postponed_by_burst", "two_pairs_back_to_back", "three_or_more_sets_pending", "zero_word_inside_burst",
           "idle_gap_of_zero_words", "single_filler_slot_used", "com_word_in_burst", "layer_runs", "scrambling_enabled_runs",
           "long_runs_over_3000_words", "reset_cycle_phantom_word",
-          "link_layer_runs", "link_layer_skp_permitted_cycles", "link_layer_non_idle_words"]
+          "link_layer_runs", "link_layer_skp_permitted_cycles", "link_layer_non_idle_words", "scrambling_enabled_late_runs"]
 META = {
     "components_real": ["luna.gateware.usb.usb3.physical.ctc.CTCSkipInserter",
                         "luna.gateware.usb.usb3.physical.layer.USB3PhysicalLayer (TX path: Scrambler, CTCSkipInserter; the rest elaborated "
@@ -46,7 +46,7 @@ META = {
     "rule": "link-layer stream of 150-1200 words (5% of runs 3000-9000): bursts 1-300 words, idle gaps 0-600 words, "
             "can_send_skp high exactly on filler; 10% of runs withhold can_send_skp on some idle stretches",
 }
-TIERS = {"quick": {"runs": 800, "wall": 70}, "thorough": {"runs": 20000, "wall": 900}}
+TIERS = {"quick": {"runs": 640, "wall": 70}, "thorough": {"runs": 20000, "wall": 900}}
 
 TOL = 8
 INTERVAL = usb3.SKP_SYMBOL_INTERVAL
@@ -108,7 +108,12 @@ def gen(rng, tier, index):
         shape = rng.choice(["packet", "lcmd", "data", "zeros", "ts"])
         ops.append({"op": "burst", "n": b, "shape": shape, "seed": rng.getrandbits(32)})
         total += b
-    return {"engine": ENGINE, "config": {"dut": kind, "scramble": scramble}, "ops": ops}
+    cfg = {"dut": kind, "scramble": scramble}
+    if kind == "layer" and scramble and rng.random() < 0.2:
+        # scrambling is switched on late: the run starts with this many words of pure logical idle (SKPs permitted) sent
+        # unscrambled, then enable_scrambling rises -- without a COM in between, so the keystream position matters
+        cfg["scramble_from"] = rng.randint(100, 420)
+    return {"engine": ENGINE, "config": cfg, "ops": ops}
 
 
 def _mix(x):
@@ -193,6 +198,12 @@ class _Actor:
                 self.script.extend([(0, 0, op.get("can", 1), False)] * op["n"])
             else:
                 self.script.extend((d, c, 0, True) for d, c in _burst_words(op))
+        self.scramble_from = scn["config"].get("scramble_from", 0)
+        if self.scramble_from:
+            self.script = [(0, 0, 1, False)] * self.scramble_from + self.script
+        # (whether the LFSR runs on or stands still while scrambling is disabled is not specified: both are accepted until the
+        # first scrambled word shows which one the design does; it never advances over slots replaced by SKPs)
+        self.ref_frozen = usb3.ScramblerRef() if self.scramble_from else None
         self.pos = 0
         self.A = []                  # accepted, not yet matched: dicts
         self.k = 0                   # words matched so far (== symbols/4 transmitted before the next word)
@@ -220,7 +231,8 @@ class _Actor:
         if self.kind == "inserter":
             pins["src_ready"] = 1
         else:
-            pins.update({"scramble": self.scramble, "tx_idle": 0, "rx_elec_idle": 1})
+            self.en_now = int(bool(self.scramble) and self.pos >= self.scramble_from)
+            pins.update({"scramble": self.en_now, "tx_idle": 0, "rx_elec_idle": 1})
         return pins
 
     def _fail(self, rule, t, msg, **shape):
@@ -236,7 +248,7 @@ class _Actor:
         # ---- input slot ------------------------------------------------------------------------------------------
         if o["ready"]:
             e = {"d": d, "c": c, "rep": bool(can) and (d, c) == FILLER, "burst": inb, "opt": False, "t": t,
-                 "sending": o.get("sending", None)}
+                 "sending": o.get("sending", None), "en": getattr(self, "en_now", 1)}
             self.A.append(e)
             if self.pos < len(self.script):
                 self.pos += 1
@@ -246,7 +258,7 @@ class _Actor:
                     pr["com_word_in_burst"] += 1
         elif t == 0:
             # registered ready still low in the reset cycle: the word may leak onto the wire once
-            self.A.append({"d": d, "c": c, "rep": False, "burst": inb, "opt": True, "t": t, "sending": None})
+            self.A.append({"d": d, "c": c, "rep": False, "burst": inb, "opt": True, "t": t, "sending": None, "en": getattr(self, "en_now", 1)})
         else:
             return self._fail("C33.only_idle_replaced", t, "sink.ready low after the reset cycle although the PHY takes a word "
                               "every cycle", what="stalled")
@@ -293,6 +305,17 @@ class _Actor:
         if self.kind == "layer" and self.scramble:
             ref2 = self.ref.copy()
             exp_d = usb3.scramble_word(ref2, e["d"], e["c"])
+            if not e["en"]:
+                exp_d = e["d"]                                   # sent unscrambled; ref2 = "the LFSR runs on while disabled"
+            elif self.ref_frozen is not None:
+                # first scrambled word after the late enable: decide between the two admissible keystream positions
+                alt = self.ref_frozen.copy()
+                alt_d = usb3.scramble_word(alt, e["d"], e["c"])
+                if out != (exp_d, e["c"]) and out == (alt_d, e["c"]):
+                    ref2, exp_d = alt, alt_d
+                if out != usb3.SKP_WORD:
+                    self.ref_frozen = None
+                    pr["scrambling_enabled_late_runs"] += 1
         else:
             ref2 = None
             exp_d = e["d"]
